@@ -154,6 +154,17 @@ theorem live_eq_last_snapshot (P : Params) (ok : P.OrderOK) (h : List Item) (cfg
     rw [key, hc]
     simp [regNext, view, Option.filter]
 
+/-- `watcher.entities` (the anchored state next to `ObjectRegistry.entities`) is the watcher's view
+of the registry after every history. -/
+theorem watcher_entities_eq (P : Params) (ok : P.OrderOK) (h : List Item) (wf : HistWF h) (n : Name) :
+    (run P Sys.init h).w.wents.get n =
+      view P (specFinal n 0 false none h).1 (specFinal n 0 false none h).2 := by
+  have w := run_winv P ok h Sys.init (inv_init P) (winv_init P) wf n
+  have fin := (run_spec P ok n h Sys.init (inv_init P) wf).2.2
+  have h1 : (run P Sys.init h).w.attached = (specFinal n 0 false none h).1 := congrArg Prod.fst fin
+  have h2 : (run P Sys.init h).ents.get n = (specFinal n 0 false none h).2 := congrArg Prod.snd fin
+  rw [w, h1, h2]
+
 /-! ## unchanged ⇒ untouched -/
 
 /-- If a snapshot leaves the registry's object for `n` as it is (same kind and body, or absent
